@@ -152,13 +152,20 @@ func (cd *chunkInfoDiscover) putChunkInfoDiscover(rootCid, overlay boson.Address
 }
 
 func (ci *ChunkInfo) delDiscoverPresence(rootCid boson.Address) bool {
-	if v, ok := ci.cd.presence[rootCid.String()]; ok {
-		for k := range v {
-			err := ci.stateStorer.Delete(generateKey(discoverKeyPrefix, rootCid, boson.MustParseHexAddress(k)))
-			if err != nil {
-				return false
-			}
+	// delete what is persisted for the file, not only what is in memory:
+	// records that were skipped at start-up (their file could not be
+	// enumerated then) would otherwise survive the deletion
+	delKey := discoverKeyPrefix + rootCid.String()
+	if err := ci.stateStorer.Iterate(delKey, func(k, v []byte) (bool, error) {
+		if !strings.HasPrefix(string(k), delKey) {
+			return false, nil
 		}
+		if err := ci.stateStorer.Delete(string(k)); err != nil {
+			return true, err
+		}
+		return false, nil
+	}); err != nil {
+		return false
 	}
 
 	delete(ci.cd.presence, rootCid.String())
